@@ -12,11 +12,42 @@ import ast
 from ..callgraph import show_path
 from ..model import src
 from ..report import Report, key_of
+from ..terms import pretty
 from .c08 import check_name_tests
 from .common import TRUSTED_BASE, cfg_nodes_for, subst_single_assign, where
 
 ENTRY = [('Chain', 'get'), ('Chain', '__getitem__'), ('Chain', '__getattr__'), ('Chain', '__contains__'), ('Chain', 'get_task'),
          ('InputTasks', 'get'), ('InputTasks', '__getitem__'), ('InputTasks', '__contains__')]
+
+
+def _is_name(A, f, e, name):
+    """e is the local `name` or a single-assignment alias of it"""
+    for _ in range(4):
+        if isinstance(e, ast.Name) and e.id == name:
+            return True
+        if not isinstance(e, ast.Name):
+            return False
+        defs = A.sym._local_defs(f).get(e.id)
+        if not defs or len(defs) != 1 or defs[0][0] != 'assign':
+            return False
+        e = defs[0][1]
+    return False
+
+
+def _universal_flag(A, f, flag, mvar, cand):
+    """`flag` is set True, then cleared inside a loop over all matches under a condition on the candidate - the
+    hand-written form of all(...)."""
+    sets_true = [n for n in A.typer.own_nodes(f) if isinstance(n, ast.Assign) and src(n.targets[0]) == flag and isinstance(n.value, ast.Constant) and n.value.value is True]
+    cleared = []
+    for lp in A.typer.own_nodes(f):
+        if isinstance(lp, ast.For) and _is_name(A, f, lp.iter, mvar) and not any(isinstance(x, ast.Continue) for x in ast.walk(lp)):
+            for n in ast.walk(lp):
+                if isinstance(n, ast.Assign) and src(n.targets[0]) == flag and isinstance(n.value, ast.Constant) and n.value.value is False:
+                    p = getattr(n, '_parent', None)
+                    if isinstance(p, ast.If) and cand in src(p.test):
+                        cleared.append(n)
+    others = [n for n in A.typer.own_nodes(f) if isinstance(n, ast.Assign) and src(n.targets[0]) == flag and n not in sets_true and n not in cleared]
+    return bool(sets_true) and bool(cleared) and not others
 
 
 def run(A, R: Report, thorough: bool):
@@ -26,58 +57,87 @@ def run(A, R: Report, thorough: bool):
     f = A.func('_find_task_full_name')
     cfg = A.cfg(f)
 
-    R.rule('R10.1', 'affix tests between task names in the resolver and in the resolution of declared inputs carry the separator', floor=2)
+    R.rule('R10.1', 'affix tests between task names in the resolver and in the resolution of declared inputs carry the separator', floor=1)
     n = check_name_tests(A, R, 'R10.1', only={f.short, 'Chain._process_dependencies', 'Chain._expand_tasks'} | {nf.short for nf in f.nested.values()})
 
     # ---- R10.2
     R.rule('R10.2', 'n>1: return only under a universally quantified minimality test, else raise; n=0: raise; positional pick only when n=1', floor=3)
-    # the list of matches
-    lists = [n for n in A.typer.own_nodes(f) if isinstance(n, ast.Assign) and isinstance(n.value, ast.ListComp) and len(n.targets) == 1 and isinstance(n.targets[0], ast.Name)]
-    R.require(lists, 'anchor: list of matching tasks not found in _find_task_full_name')
-    mvar = lists[0].targets[0].id
-    comp = lists[0].value
+    # the list of matches: a local whose value is the filter of all given tasks by the match predicate
     tasks_param = f.params[1]
-    R.check(src(comp.generators[0].iter) == tasks_param and isinstance(comp.elt, ast.Name) and comp.elt.id == src(comp.generators[0].target), 'R10.2', '_find_task_full_name: matches',
-            key_of('matches', src(comp)[:80]), f'{mvar} = all tasks that match', 'the candidate list is not a filter over all given tasks', where=where(f, comp))
+    mvar = None
+    for name in sorted({n.id for n in A.typer.own_nodes(f) if isinstance(n, ast.Name) and isinstance(n.ctx, ast.Store)}):
+        t = A.sym.local_term(f, None, name)
+        if t[0] == 'map' and t[4] is not None and len(t[1]) == 1 and t[2] == t[1][0] and t[3] == ('p', tasks_param):
+            mvar, mterm = name, t
+            break
+    R.require(mvar is not None, 'anchor: list of matching tasks (a filter over all given tasks) not found in _find_task_full_name')
+    R.ok('R10.2', '_find_task_full_name: matches', f'{mvar} = all tasks that match', witness=[pretty(mterm)[:200]], where=where(f))
+
+    def facts_ast(nid):
+        return [(subst_single_assign(A, f, a), pol) for a, pol in cfg.facts_at(nid)]
 
     def fact_texts(nid):
-        return [(src(subst_single_assign(A, f, a)), pol) for a, pol in cfg.facts_at(nid)]
+        return [(src(a), pol) for a, pol in facts_ast(nid)]
 
-    many = f'len({mvar}) > 1'
-    none = f'len({mvar}) == 0'
-    rets = [n for n in cfg.nodes.values() if n.kind == 'stmt' and isinstance(n.ast, ast.Return) and n.id in cfg.reachable_nodes()]
+    REPS = (0, 1, 2, 3, 7)
+    OPS = {ast.Eq: lambda x, y: x == y, ast.NotEq: lambda x, y: x != y, ast.Lt: lambda x, y: x < y, ast.LtE: lambda x, y: x <= y, ast.Gt: lambda x, y: x > y, ast.GtE: lambda x, y: x >= y}
+
+    def is_len(e):
+        e = subst_single_assign(A, f, e)
+        return isinstance(e, ast.Call) and src(e.func) == 'len' and len(e.args) == 1 and _is_name(A, f, e.args[0], mvar)
+
+    def possible(nid):
+        """Which of n=0, n=1, n>1 (number of matches) are consistent with the branch facts at the node - the count is only ever compared with constants."""
+        reps = set(REPS)
+        for a, pol in facts_ast(nid):
+            if isinstance(a, ast.Compare) and len(a.ops) == 1 and type(a.ops[0]) in OPS:
+                l, r = a.left, a.comparators[0]
+                if is_len(l) and isinstance(r, ast.Constant) and isinstance(r.value, int):
+                    reps = {n_ for n_ in reps if OPS[type(a.ops[0])](n_, r.value) == pol}
+                elif is_len(r) and isinstance(l, ast.Constant) and isinstance(l.value, int):
+                    reps = {n_ for n_ in reps if OPS[type(a.ops[0])](l.value, n_) == pol}
+            elif is_len(a) or (isinstance(a, ast.Name) and a.id == mvar):
+                reps = {n_ for n_ in reps if (n_ > 0) == pol}
+        return {('0' if n_ == 0 else '1' if n_ == 1 else 'many') for n_ in reps}
+
+    rets = [n for n in cfg.nodes.values() if n.kind == 'stmt' and isinstance(n.ast, ast.Return) and n.id in cfg.reachable_nodes() and n.owner is f.node]
     raises = [n for n in cfg.nodes.values() if n.kind == 'stmt' and isinstance(n.ast, ast.Raise) and n.id in cfg.reachable_nodes()]
+    cand_loops = [lp for lp in A.typer.own_nodes(f) if isinstance(lp, ast.For) and _is_name(A, f, lp.iter, mvar) and isinstance(lp.target, ast.Name)]
     for rn in rets:
         v = rn.ast.value
         facts = fact_texts(rn.id)
         vs = src(v) if v is not None else 'None'
-        if isinstance(v, ast.Subscript) and src(v.value) == mvar or 'next(' in vs:
-            ok = (many, False) in facts and ((none, False) in facts or (f'len({mvar}) == 1', True) in facts or (f'not {mvar}', False) in facts)
+        v0 = subst_single_assign(A, f, v) if v is not None else None
+        unpack = isinstance(v, ast.Name) and any(isinstance(n, ast.Assign) and isinstance(n.targets[0], (ast.Tuple, ast.List)) and len(n.targets[0].elts) == 1
+                                                 and src(n.targets[0].elts[0]) == v.id and src(n.value) == mvar for n in A.typer.own_nodes(f))
+        if unpack:
+            R.ok('R10.2', f'_find_task_full_name: `return {vs}`', 'single-element unpacking: raises unless exactly one match', where=where(f, rn.ast))
+        elif (isinstance(v0, ast.Subscript) and src(v0.value) == mvar) or (isinstance(v0, ast.Call) and src(v0.func) == 'next'):
+            poss = possible(rn.id)
+            ok = poss == {'1'}
             R.check(ok, 'R10.2', f'_find_task_full_name: `return {vs}`', key_of('positional', vs, ok), 'only when exactly one match remains',
-                    f'`return {vs}` picks a match by position while several (or no) matches are possible: resolution depends on declaration order', witness=[str(facts)], where=where(f, rn.ast))
-        elif isinstance(v, ast.Name) and not any(isinstance(lp, ast.For) and src(lp.iter) == mvar and src(lp.target) == v.id for lp in A.typer.own_nodes(f)):
-            # a local that is not the candidate-loop variable: judge by its definition
-            unpack = [n for n in A.typer.own_nodes(f) if isinstance(n, ast.Assign) and isinstance(n.targets[0], (ast.Tuple, ast.List)) and len(n.targets[0].elts) == 1
-                      and src(n.targets[0].elts[0]) == v.id and src(n.value) == mvar]
-            first = [n for n in A.typer.own_nodes(f) if isinstance(n, ast.Assign) and src(n.targets[0]) == v.id and isinstance(n.value, ast.Subscript) and src(n.value.value) == mvar]
-            if unpack:
-                R.ok('R10.2', f'_find_task_full_name: `return {vs}`', 'single-element unpacking: raises unless exactly one match', where=where(f, rn.ast))
-            elif first:
-                ok = (many, False) in facts and ((none, False) in facts or (f'not {mvar}', False) in facts)
-                R.check(ok, 'R10.2', f'_find_task_full_name: `return {vs}`', key_of('positional', vs, ok), 'only when exactly one match remains',
-                        f'`return {vs}` picks a match by position while several (or no) matches are possible', witness=[str(facts)], where=where(f, rn.ast))
+                    f'`return {vs}` picks a match by position while the number of matches can be {sorted(poss)}: resolution depends on declaration order', witness=[str(facts)], where=where(f, rn.ast))
+        elif isinstance(v, ast.Name) and any(lp.target.id == v.id for lp in cand_loops):
+            # a loop candidate: must be guarded by a test over all matches
+            fa = facts_ast(rn.id)
+            quant = [a for a, pol in fa if pol and isinstance(a, ast.Call) and src(a.func) == 'all' and a.args and isinstance(a.args[0], (ast.GeneratorExp, ast.ListComp))]
+            weak = [a for a, pol in fa if isinstance(a, ast.Call) and src(a.func) == 'any']
+            flags = [a for a, pol in fa if pol and isinstance(a, ast.Name) and _universal_flag(A, f, a.id, mvar, v.id)]
+            if quant:
+                ok = all(_is_name(A, f, q.args[0].generators[0].iter, mvar) and not q.args[0].generators[0].ifs and v.id in src(q.args[0].elt) for q in quant)
+                R.check(ok, 'R10.2', f'_find_task_full_name: `return {vs}`', key_of('candidate', vs, ok), 'candidate is compared with every match',
+                        f'`return {vs}` is not guarded by a test over all matches: an ambiguous short name resolves to whichever match comes first', witness=[str(facts)], where=where(f, rn.ast))
+            elif flags:
+                R.ok('R10.2', f'_find_task_full_name: `return {vs}`', f'candidate is compared with every match (flag `{src(flags[0])}` cleared by a loop over all matches)', where=where(f, rn.ast))
+            elif weak or not any(v.id in src(a) for a, pol in fa):
+                R.violation('R10.2', f'_find_task_full_name: `return {vs}`', key_of('candidate', vs, False),
+                            f'`return {vs}` is not guarded by a test over all matches: an ambiguous short name resolves to whichever match comes first', witness=[str(facts)], where=where(f, rn.ast))
             else:
-                R.undecided('R10.2', f'_find_task_full_name: `return {vs}`', 'return form not recognised', where=where(f, rn.ast))
-        elif isinstance(v, ast.Name):
-            # a loop candidate: must be guarded by all(... for t in matches)
-            quant = [a for a, pol in cfg.facts_at(rn.id) if pol and isinstance(a, ast.Call) and src(a.func) == 'all' and a.args and isinstance(a.args[0], ast.GeneratorExp)]
-            ok = bool(quant) and all(src(q.args[0].generators[0].iter) == mvar and not q.args[0].generators[0].ifs and v.id in src(q.args[0].elt) for q in quant)
-            R.check(ok, 'R10.2', f'_find_task_full_name: `return {vs}`', key_of('candidate', vs, ok), 'candidate is compared with every match',
-                    f'`return {vs}` is not guarded by a test over all matches: an ambiguous short name resolves to whichever match comes first', witness=[str(facts)], where=where(f, rn.ast))
+                R.undecided('R10.2', f'_find_task_full_name: `return {vs}`', 'guard of the candidate return not recognised', where=where(f, rn.ast))
         else:
             R.undecided('R10.2', f'_find_task_full_name: `return {vs}`', 'return form not recognised', where=where(f, rn.ast))
-    r_many = [rn for rn in raises if (many, True) in fact_texts(rn.id) and 'KeyError' in src(rn.ast)]
-    r_none = [rn for rn in raises if ((none, True) in fact_texts(rn.id) or (f'not {mvar}', True) in fact_texts(rn.id)) and 'KeyError' in src(rn.ast)]
+    r_many = [rn for rn in raises if possible(rn.id) == {'many'} and 'KeyError' in src(rn.ast)]
+    r_none = [rn for rn in raises if possible(rn.id) == {'0'} and 'KeyError' in src(rn.ast)]
     R.check(bool(r_many), 'R10.2', '_find_task_full_name: ambiguity', key_of('raise-many'), 'KeyError when several matches remain', 'no KeyError is raised for an ambiguous name', where=where(f))
     R.check(bool(r_none), 'R10.2', '_find_task_full_name: absence', key_of('raise-none'), 'KeyError when nothing matches', 'no KeyError is raised for an unknown name', where=where(f))
     # every path to the function's normal exit with n>1 known passes the quantified loop: the ambiguity raise dominates nothing else
